@@ -145,6 +145,13 @@ def _(n, T):
             F(n + "b", "int", [P("a", "ptr_in", "int"), P("s", "str_ptr_inout", cptr=True)])]
 
 
+@shape("fixed_width", types=["uint16_t", "int16_t", "uint32_t", "uint64_t"], wraps=("c", "fortran"), doc="docs/types.rst fixed-width integers (types.yaml): by value, through pointers in every intent and in arrays")
+def _(n, T):
+    return [F(n, T, [P("a", "val", T), P("b", "ptr_inout", T), P("c", "ptr_out", T)]),
+            F(n + "s", T, [P("v", "arr_in", T, n="n"), P("n", "implied", "int", of="v")]),
+            F(n + "o", "void", [P("n", "val", "int", role="count"), P("v", "arr_out", T, dim="n")])]
+
+
 @shape("cstr_inout", wraps=("c", "fortran"), doc="strings.yaml passCharPtrInOut")
 def _(n, T):
     return [F(n, "void", [P("s", "cstr_inout")])]
@@ -270,6 +277,17 @@ def _(n, T):
 @shape("default3", langs=("c++",), wraps=ALLW, doc="tutorial.yaml UseDefaultOverload")
 def _(n, T):
     return [F(n, "int", [P("a", "val", "int"), P("b", "val", "int", default="5"), P("c", "val", "int", default="12")])]
+
+
+@shape("default_zero", langs=("c++",), wraps=ALLW, doc="docs/tutorial.rst default arguments: every default value is a zero (0, 0.0, false)")
+def _(n, T):
+    c = n + "_Z"
+    return [F(n, "int", [P("a", "val", "int", default="0")]),
+            F(n + "b", "double", [P("a", "val", "int"), P("x", "val", "double", default="0.0"), P("k", "val", "int", default="0")],
+              yaml={"default_arg_suffix": ["_a", "_ax", "_axk"]}),
+            F(c, "void", [P("flag", "val", "int", default="0")], cls=c, ctor=True, fid=c + "#ctor"),
+            F("~", "void", [], cls=c, dtor=True, fid=c + "#dtor", dtor_name="delete"),
+            F("add", "int", [P("v", "val", "int", default="0"), P("b", "val", "bool", default="false")], cls=c, fid=c + "#add")]
 
 
 @shape("default_sfx", langs=("c++",), wraps=ALLW, doc="tutorial.yaml UseDefaultOverload default_arg_suffix")
